@@ -151,6 +151,17 @@ func c08Sources(r *drv.Run) ([][]byte, map[string]int) {
 		}
 		add("buffer-straddling", pad+tail)
 	}
+	// exhaustive: every pair of bytes after `\x` and after a backslash in a string literal, after a backslash in a
+	// regex literal (escape decoding looks ahead and converts: all 65 536 continuations, not only printable ones)
+	for b1 := 0; b1 < 256; b1++ {
+		for b2 := 0; b2 < 256; b2++ {
+			pair := string([]byte{byte(b1), byte(b2)})
+			add("escape-continuation", "find all '\\x"+pair+"z'")
+			add("escape-continuation", "find all \"\\x"+pair+"z\"")
+			add("escape-continuation", "find all '\\"+pair+"z'")
+			add("escape-continuation", "find all @/\\"+pair+"z/")
+		}
+	}
 	for i := 0; i < nregex; i++ {
 		rng := gen.Derive(r.Seed, "C08regex", i)
 		n := rng.Intn(14)
@@ -182,7 +193,7 @@ func procProgramSource(rng *gen.Rng, i int) string {
 func C08(r *drv.Run) {
 	r.BuildWorker()
 	srcs, counts := c08Sources(r)
-	r.Rule = "sources: valid programs (hand corpus covering every production, repository examples, generated programs incl. process code) and, for each, every byte prefix and suffix, every one-token deletion/duplication/adjacent swap, every token prefix; random token soups; random bytes biased to lexer-significant characters; regex literals with arbitrary bodies, terminated and not; hostile tails pushed across a multiple of the lexer's 4096-byte read buffer by a long comment, blank run or string. Each Compile runs in a killable worker under a lexer-read budget (hook H2), a 30 CPU-second and 1.5 GiB guard; outcome classified: program XOR error, printable non-empty error, no panic, no nil hole anywhere in the AST (reflective walk) or bytecode. Every distinct source text counts once (the valid base programs are the control group that must be accepted)."
+	r.Rule = "sources: valid programs (hand corpus covering every production, repository examples, generated programs incl. process code) and, for each, every byte prefix and suffix, every one-token deletion/duplication/adjacent swap, every token prefix; random token soups; random bytes biased to lexer-significant characters; regex literals with arbitrary bodies, terminated and not; hostile tails pushed across a multiple of the lexer's 4096-byte read buffer by a long comment, blank run or string; exhaustively every pair of bytes (all 65 536) after `\\x` in both quote styles, after a backslash in a string and after a backslash in a regex literal. Each Compile runs in a killable worker under a lexer-read budget (hook H2), a 30 CPU-second and 1.5 GiB guard; outcome classified: program XOR error, printable non-empty error, no panic, no nil hole anywhere in the AST (reflective walk) or bytecode. Every distinct source text counts once (the valid base programs are the control group that must be accepted)."
 	r.Assumptions = []string{
 		"bounded time/memory is decided as: lexer reads <= 64*(len+8)+4096 (hook count), <= 30 CPU-seconds and <= 1.5 GiB per Compile call",
 		"a hole is a nil pointer or nil interface reachable from the returned AST, or nil bytecode",
